@@ -26,7 +26,7 @@ import (
 )
 
 func init() {
-	hx.Register(&hx.Prop{ID: "C03", Part: "feat", Ops: []string{"bedr", "gffr"}, Gen: c03FeatGen, Exec: c03FeatExec, Shrink: fioShrink})
+	hx.Register(&hx.Prop{ID: "C03", Part: "feat", Ops: []string{"bedr", "gffr", "dt", "dtf"}, Gen: c03FeatGen, Exec: c03FeatExec, Shrink: fioShrink})
 }
 
 func c03FeatExec(input string) string {
@@ -37,6 +37,15 @@ func c03FeatExec(input string) string {
 	case "gffr":
 		data := hx.Unhex(f[1])
 		return fioReadGff(data) + " | " + fioOracles(data)
+	case "dt": // time.Parse(gff.Astronomical, s): "ok <year> <month> <day>" or "err"
+		t, err := time.Parse(gff.Astronomical, string(hx.Unhex(f[1])))
+		if err != nil {
+			return "err"
+		}
+		return fmt.Sprintf("ok %d %d %d", t.Year(), int(t.Month()), t.Day())
+	case "dtf": // Time.Format(gff.Astronomical)
+		t := time.Date(hx.Atoi(f[1]), time.Month(hx.Atoi(f[2])), hx.Atoi(f[3]), 0, 0, 0, 0, time.UTC)
+		return hx.Hex([]byte(t.Format(gff.Astronomical)))
 	}
 	panic("c03 feat: bad input " + input)
 }
@@ -44,7 +53,7 @@ func c03FeatExec(input string) string {
 // fioShrink: drop one line, drop one tab-separated field of one line, drop one byte
 func fioShrink(input string) []string {
 	f := hx.Fields(input)
-	if len(f) < 2 {
+	if len(f) < 2 || f[0] == "dtf" {
 		return nil
 	}
 	data := hx.Unhex(f[len(f)-1])
@@ -90,7 +99,11 @@ var fioDates = []string{"2020-1-02", "1999-12-31", "2000-2-29", "2024-02-29", "2
 
 func fioGffFile(g *hx.Gen, items int, valid bool) []byte {
 	var buf bytes.Buffer
-	w := gff.NewWriter(&buf, g.Pick(1, 3, 10, 60), g.Chance(0.5))
+	width := g.Pick(1, 3, 10, 60)
+	if g.Chance(0.05) {
+		width = g.Pick(4095, 4096, 5000, 20000)
+	}
+	w := gff.NewWriter(&buf, width, g.Chance(0.5))
 	for i := 0; i < items; i++ {
 		switch g.Intn(12) {
 		case 0:
@@ -112,7 +125,12 @@ func fioGffFile(g *hx.Gen, items int, valid bool) []byte {
 			w.Write(&gff.Region{Sequence: gff.Sequence{SeqName: fioName(g)}, RegionStart: s, RegionEnd: s + 1 + g.Intn(1000)})
 		case 6:
 			mol := g.Intn(3)
-			s := linear.NewSeq(fioName(g), alphabet.BytesToLetters(fioLetters(g, mol, g.Pick(1, 2, 9, 10, 11, 61, 130))), fioAlphas[mol])
+			ln := g.Pick(1, 2, 9, 10, 11, 61, 130)
+			if g.Chance(0.04) || (width > 1000 && g.Chance(0.5)) {
+				// inline sequence blocks (and, with a large width, single lines) beyond the reader's buffer
+				ln = g.Pick(4000, 4093, 4094, 4095, 4096, 4097, 5000, 8191, 8192, 8193, 12000)
+			}
+			s := linear.NewSeq(fioName(g), alphabet.BytesToLetters(fioLetters(g, mol, ln)), fioAlphas[mol])
 			if g.Chance(0.3) {
 				s.Desc = fioText(g, " ")
 			}
@@ -255,6 +273,43 @@ func fioMutate(g *hx.Gen, data []byte) []byte {
 	return bytes.Join(lines, nil)
 }
 
+// fioBoundaryFiles: LF-terminated files with one physical line whose content is exactly L bytes,
+// L around one and two buffer sizes of bufio.NewReader: a BED4 line, a GFF feature line, a
+// line of a GFF inline sequence and the "##DNA <id>" line that opens it; the long line in
+// the middle of the file or last.  k varies the content (and with it the io.Reader behaviour
+// sioSource picks).
+type fioBoundaryFile struct {
+	bed  bool
+	data []byte
+}
+
+var fioBoundaryLens = []int{4094, 4095, 4096, 4097, 4098, 8190, 8191, 8192, 8193, 8194}
+
+func fioBoundaryFiles(g *hx.Gen, variants int) []fioBoundaryFile {
+	var out []fioBoundaryFile
+	pad := func(prefix string, L int) string {
+		n := L - len(prefix)
+		return prefix + string(g.Letters("acgt", n))
+	}
+	for _, L := range fioBoundaryLens {
+		for k := 0; k < variants; k++ {
+			short := fmt.Sprintf("chr2\t5\t%d\tn%d\n", 20+k, k)
+			long := pad("chr1\t1\t10\t", L) + "\n"
+			out = append(out, fioBoundaryFile{true, []byte(short + long)}, fioBoundaryFile{true, []byte(long + short)})
+			gshort := fmt.Sprintf("chr2\tsrc\tgene\t5\t%d\t.\t+\t.\n", 20+k)
+			glong := pad("chr1\tsrc\tgene\t10\t20\t.\t+\t.\tNote ", L) + "\n"
+			out = append(out, fioBoundaryFile{false, []byte(gshort + glong)}, fioBoundaryFile{false, []byte(glong + gshort)})
+			seq := fmt.Sprintf("##DNA s%d\n", k) + pad("##", L) + "\n##end-DNA\n"
+			out = append(out, fioBoundaryFile{false, []byte(seq)}, fioBoundaryFile{false, []byte(seq + gshort)})
+			// the last line of the block (the end marker) pushed to the boundary by trailing blanks is
+			// not valid; a long id line is
+			id := pad("##DNA ", L) + "\n##acgt\n##end-DNA\n"
+			out = append(out, fioBoundaryFile{false, []byte(id)})
+		}
+	}
+	return out
+}
+
 var fioMetaKeywords = []string{"gff-version", "source-version", "date", "Type", "type", "sequence-region", "DNA", "RNA", "Protein", "dna", "rna", "protein", "end-DNA", "", "unknown", "GFF-VERSION"}
 var fioMetaArgs = []string{"2", "1", "3", "0", "-1", "x", "chr1", "10", "DNA", "RNA", "protein", "2020-1-02", "9223372036854775808", "", "0x10", "1_0"}
 
@@ -345,6 +400,54 @@ func c03FeatGen(g *hx.Gen) {
 		g.Casef("gffr %s", hx.Hex([]byte("chr1\tsrc\tgene\t10\t20\t.\t+\t.\t"+a+"\tcomment\n")))
 	}
 
+	// physical lines on the boundaries of bufio's buffer, in the four terminator layouts
+	for _, bf := range fioBoundaryFiles(g, g.Scale(1, 5)) {
+		for _, d := range fioLayouts(bf.data) {
+			if bf.bed {
+				g.Casef("bedr 4 %s", hx.Hex(d))
+			} else {
+				g.Casef("gffr %s", hx.Hex(d))
+			}
+		}
+	}
+
+	// time.Parse / Time.Format with the layout of the ##date line: the fixed list, every month
+	// and month end of leap and other years, and date-like strings under small mutations
+	for _, d := range fioDates {
+		g.Casef("dt %s", hx.Hex([]byte(d)))
+	}
+	for _, y := range []int{0, 1, 4, 100, 400, 1900, 1999, 2000, 2023, 2024, 2100, 9999} {
+		for m := 1; m <= 12; m++ {
+			for _, d := range []int{1, 9, 10, 28, 29, 30, 31} {
+				g.Casef("dt %s", hx.Hex([]byte(fmt.Sprintf("%04d-%d-%02d", y, m, d))))
+				if d <= 28 {
+					g.Casef("dtf %d %d %d", y, m, d)
+				}
+			}
+		}
+	}
+	for k := g.Scale(3000, 60000); k > 0 && !g.Done(); k-- {
+		s := []byte(fmt.Sprintf("%04d-%d-%02d", g.Pick(0, 4, 1900, 2000, 2023, 2024, g.Intn(10000)), g.Range(0, 14), g.Range(0, 33)))
+		if g.Chance(0.3) {
+			s = []byte(fmt.Sprintf("%d-%02d-%d", g.Intn(12000), g.Range(0, 14), g.Range(0, 40)))
+		}
+		for m := g.Pick(0, 0, 1, 1, 2); m > 0 && len(s) > 0; m-- {
+			i := g.Intn(len(s))
+			switch g.Intn(4) {
+			case 0:
+				pool := "0123456789-+ /.x\xef"
+				s[i] = pool[g.Intn(len(pool))]
+			case 1:
+				s = append(s[:i], s[i+1:]...)
+			case 2:
+				s = append(s[:i], append([]byte{"0123456789-+ "[g.Intn(13)]}, s[i:]...)...)
+			case 3:
+				s = s[:i]
+			}
+		}
+		g.Casef("dt %s", hx.Hex(s))
+	}
+
 	// (b) valid files under mutations, (a) arbitrary bytes ---------------------------
 	n := g.Scale(12000, 150000)
 	for k := 0; k < n && !g.Done(); k++ {
@@ -377,6 +480,9 @@ func c03FeatGen(g *hx.Gen) {
 				if g.Chance(0.5) {
 					w := fioWidths[g.Intn(5)]
 					d := fioBedFile(g, w, g.Pick(1, 2))
+					if len(d) > 600 {
+						d = d[:600]
+					}
 					for i := 0; i <= len(d) && !g.Done(); i++ {
 						g.Casef("bedr %d %s", w, hx.Hex(d[:i]))
 					}
